@@ -263,18 +263,27 @@ func c20Lanes(res *engine.Result, report func(*engine.Violation, string)) (evals
 			report(tagged(viol("system-lane-is-exactly-one-oracle-update", "message list %s: system lane match = %v, expected %v", sh.name, got, sh.system), "shape", sh.name), "system-lane"+sh.name)
 		}
 	}
-	// free lane: whitelist ⊆ {p,g,x}, payer ∈ {p,q}, granter ∈ {nil,g,q}
+	// free lane: whitelist = every ordered list over {p,g,x}, payer ∈ {p,q}, granter ∈ {nil,g,q}
 	free := opchildlanes.NewFreeLaneMatchHandler(w.AK.AddressCodec(), w.K).MatchHandler()
 	names := []string{"p", "g", "x"}
 	nfree := 0
-	for mask := 0; mask < 8; mask++ {
-		var wl []string
-		var wln []string
+	// every ordered list without repetition over the three names (the on-chain list is stored as given:
+	// nothing sorts it), 16 lists in all
+	var lists [][]string
+	var perm func(cur []string, used int)
+	perm = func(cur []string, used int) {
+		lists = append(lists, append([]string{}, cur...))
 		for i, n := range names {
-			if mask&(1<<i) != 0 {
-				wl = append(wl, world.Addr(n).String())
-				wln = append(wln, n)
+			if used&(1<<i) == 0 {
+				perm(append(cur, n), used|1<<i)
 			}
+		}
+	}
+	perm(nil, 0)
+	for _, wln := range lists {
+		var wl []string
+		for _, n := range wln {
+			wl = append(wl, world.Addr(n).String())
 		}
 		cctx, _ := w.Ctx.CacheContext()
 		p, _ := w.K.GetParams(cctx)
@@ -307,7 +316,7 @@ func c20Lanes(res *engine.Result, report func(*engine.Violation, string)) (evals
 			}
 		}
 	}
-	res.Coverage["lanes"] = map[string]any{"system_shapes": len(shapes), "system_matches": nsys, "free_cases": 48, "free_matches": nfree}
+	res.Coverage["lanes"] = map[string]any{"system_shapes": len(shapes), "system_matches": nsys, "free_cases": 96, "free_matches": nfree}
 	return
 }
 
